@@ -83,6 +83,25 @@ theorem InvRel.congr_left {s s1 s' : Sess} {o : List SOut} (hi : s.issued = s1.i
 theorem out_inv {s : Sess} (h : Inv s) {os : List SOut} (ho : reqIds os = []) (hc : Clean os) : InvRel s os s :=
   ⟨out_idrel h.1 ho, h.2, hc, Nat.le_refl _⟩
 
+def okInv (o : SOut) : Bool := (reqIdOf o).isNone && cleanB o && !isInvoke o
+
+theorem Clean.of_ok {os : List SOut} (h : ∀ o ∈ os, okInv o = true) : Clean os :=
+  Clean.of_all (List.all_eq_true.mpr (fun o ho => by have := h o ho; simp [okInv] at this; exact this.1.2))
+
+theorem okInv_of_lcOut (o : SOut) (ho : lcOut o = true) : okInv o = true := by
+  cases o <;> simp [okInv, reqIdOf, cleanB, isInvoke, lcOut] at ho ⊢
+  · next m => cases hm : m.typ <;> simp [hm, lcMsg, isReqType] at ho ⊢
+  · next e => cases e <;> simp [lcExc] at ho ⊢
+  · next e => cases e <;> simp [lcExc] at ho ⊢
+
+/-- an update of fields the invariants do not read, with outputs they tolerate -/
+theorem lc_inv {s s' : Sess} {os : List SOut} (h : Inv s) (hc : s'.core = s.core) (ho : ∀ o ∈ os, okInv o = true) :
+    InvRel s os s' := by
+  obtain ⟨e1, e2, e3, e4, e5⟩ := core_fields hc
+  refine ⟨IdRel.of_same h.1 e1 e2 (by rw [e5]; exact h.1.2) (reqIds_nil_of (fun o ho' => by
+      have := ho o ho'; simp [okInv] at this; simpa using this.1.1)),
+    h.2.congr (core_tbl hc) e3 e4 e2 (by rw [CbqOk, e5]; exact h.2.cbq), Clean.of_ok ho, by rw [e4]; exact Nat.le_refl _⟩
+
 theorem settle_open {s : Sess} {f : Nat} {x : Fut} (hx : s.futs[f]? = some x) (hc : x.cell.isSome = false) (o : Outcome) :
     settle s f o =
       if x.watched then
@@ -406,16 +425,21 @@ theorem apiStep_inv {s : Sess} (a : Api) (h : Inv s) : InvRel s (apiStep s a).2 
     · exact raise_inv h (by simp) (by simp)
     · split
       · exact raise_inv h (by simp) (by simp)
-      · exact ⟨IdRel.of_same h.1 rfl rfl h.1.2 rfl, h.2.congr (fun k => by cases k <;> rfl) rfl rfl rfl h.2.cbq,
-          Clean.single (by simp) (by simp) (by simp) (by simp), Nat.le_refl _⟩
+      · exact lc_inv h rfl (by intro o ho; simp at ho; subst ho; rfl)
   | leave =>
     simp only [apiStep, apiLeave]
     split
     · exact InvRel.refl h
     · split
       · exact InvRel.refl h
-      · exact ⟨IdRel.of_same h.1 rfl rfl h.1.2 rfl, h.2.congr (fun k => by cases k <;> rfl) rfl rfl rfl h.2.cbq,
-          Clean.single (by simp) (by simp) (by simp) (by simp), Nat.le_refl _⟩
+      · split
+        · exact raise_inv h (by simp) (by simp)
+        · exact lc_inv h rfl (by intro o ho; simp at ho; subst ho; rfl)
+  | disconnect =>
+    simp only [apiStep, apiDisconnect]
+    split
+    · exact lc_inv h rfl (by intro o ho; simp at ho; subst ho; rfl)
+    · exact InvRel.refl h
 
 
 /-! ### messages -/
@@ -452,15 +476,40 @@ theorem outstanding_bound {s : Sess} (h : Inv s) : ∀ f ∈ s.outstanding, (f :
   obtain ⟨e, ⟨k, _, he⟩, rfl⟩ := hf
   exact h.2.futb k e he
 
-theorem onLeaveDefault_inv {s : Sess} (h : Inv s) (reason : Nat) :
-    InvRel s (onLeaveDefault s reason).2 (onLeaveDefault s reason).1 := by
-  unfold onLeaveDefault
-  have h1 := rejectList_inv (clearTables_inv h) (.closed reason) s.outstanding (outstanding_bound h)
-  have h1' : InvRel s _ _ := InvRel.congr_left (s1 := s.clearTables) rfl rfl h1
-  simp only []
-  split
-  · exact InvRel.trans h1' (emitCb_inv h1.post rfl (by simp [cleanB, isInvoke]))
-  · exact h1'
+theorem Clean.map_toLost {a : List SOut} (ha : Clean a) : Clean (a.map toLost) := by
+  intro x hx
+  obtain ⟨y, hy, rfl⟩ := List.mem_map.mp hx
+  have := ha y hy
+  cases y <;> simp_all [toLost]
+
+theorem invLiftX : LiftX InvRel Inv okInv where
+  toLift := invLift
+  okOf := okInv_of_lcOut
+  lc := fun h hc => lc_inv h hc (by simp)
+  out := fun h ho => lc_inv h rfl ho
+  emit := fun {s o} h ho => by
+    simp [okInv] at ho
+    exact emitCb_inv h (by simpa using ho.1.1) ⟨ho.1.2, ho.2⟩
+  enq := fun k h => by
+    refine ⟨IdRel.of_same h.1 rfl rfl ?_ rfl, h.2.congr (fun k => by cases k <;> rfl) rfl rfl rfl ?_, Clean.nil, Nat.le_refl _⟩
+    · intro x hx
+      rcases List.mem_append.mp hx with hx | hx
+      · exact h.1.2 x hx
+      · simp at hx; subst hx; rfl
+    · intro x hx
+      rcases List.mem_append.mp hx with hx | hx
+      · exact h.2.cbq x hx
+      · simp at hx; subst hx; exact ⟨rfl, rfl⟩
+  lostMap := fun r => ⟨idLiftX.lostMap r.1, r.2.1, r.2.2.1.map_toLost, r.2.2.2⟩
+  cbqOk := fun h o ho => by
+    have h1 := h.1.2 o ho
+    have h2 := h.2.cbq o ho
+    simp [okInv, h1, h2.1, h2.2]
+  clearQ := fun h =>
+    ⟨IdRel.of_same h.1 rfl rfl (by simp) rfl, h.2.congr (fun k => by cases k <;> rfl) rfl rfl rfl (by simp [CbqOk]),
+      Clean.nil, Nat.le_refl _⟩
+  rejectAll := fun {s} o h =>
+    InvRel.congr_left (s1 := s.clearTables) rfl rfl (rejectList_inv (clearTables_inv h) o s.outstanding (outstanding_bound h))
 
 /-- what a reply branch knows about the popped record: its future exists, is still open, and — for a subscribe
 request — no longer occurs anywhere, so it may be attached -/
@@ -545,19 +594,14 @@ theorem onEstablished_inv {s : Sess} (h : Inv s) (beh : List HAct) (m : InMsg) :
   cases m with
   | goodbye =>
     simp only [onEstablished]
-    have h0 : Inv { s with sessionId := none } :=
-      ⟨h.1.congr rfl rfl rfl, h.2.congr (fun k => by cases k <;> rfl) rfl rfl rfl h.2.cbq⟩
-    have h1 := InvRel.congr_left (s := s) rfl rfl (onLeaveDefault_inv h0 0)
-    have h2 : InvRel s (if s.goodbyeSent then [] else [SOut.send { typ := .goodbye }]) s := by
-      split
-      · exact InvRel.refl h
-      · exact out_inv h rfl (Clean.of_all (by simp [cleanB]))
-    exact InvRel.trans h2 h1
+    split
+    · exact raise_inv h (by simp) (by simp)
+    · exact invLiftX.goodbye h _
   | event sub pub p =>
     simp only [onEstablished]
     split
     · exact raise_inv h (by simp) (by simp)
-    · exact invLift.dispatch _ h _ _ _ _ _
+    · exact invLift.dispatch h _ _ _ _ _
   | published id pub =>
     simp only [onEstablished]
     exact popReply_inv h _ _ _ (fun s1 r h1 _ _ hp => settle_inv h1 hp.bound hp.open_ _)
@@ -580,14 +624,8 @@ theorem onEstablished_inv {s : Sess} (h : Inv s) (beh : List HAct) (m : InMsg) :
     · next r hr =>
       split
       · split
-        · exact raise_inv h (by simp) (by simp)
-        · split
-          · exact InvRel.refl h
-          · split
-            · split
-              · exact InvRel.trans (out_inv h (os := [_]) rfl (Clean.of_all (by simp [cleanB]))) (invLift.runAct h none _)
-              · exact raise_inv h (by simp) (by simp)
-            · exact InvRel.trans (out_inv h (os := [_]) rfl (Clean.of_all (by simp [cleanB]))) (invLift.runAct h none _)
+        · exact InvRel.refl h
+        · exact InvRel.trans (out_inv h (os := [_]) rfl (Clean.of_all (by simp [cleanB]))) (invLift.runAct h none _)
       · obtain ⟨h1, hb, _⟩ := pop_inv (kind := .call) h hr
         split
         · exact InvRel.congr_left rfl rfl (InvRel.refl h1)
@@ -626,52 +664,15 @@ theorem onEstablished_inv {s : Sess} (h : Inv s) (beh : List HAct) (m : InMsg) :
         split
         · exact InvRel.congr_left (by simp) (by simp) (InvRel.refl h1)
         · next hc => exact InvRel.congr_left (by simp) (by simp) (settle_inv h1 (by simpa using hb) (by simpa using hc) _)
-  | invocation id reg p =>
-    simp only [onEstablished]
-    split
-    · exact raise_inv h (by simp) (by simp)
-    · split
-      · exact raise_inv h (by simp) (by simp)
-      · exact out_inv h rfl (Clean.of_all (by simp [cleanB]))
-  | interrupt id => exact InvRel.refl h
+  | invocation id reg p rp => exact invLiftX.onInvocation h beh id reg p rp
+  | interrupt id => exact invLiftX.settleInv h id _
   | welcome sid => exact raise_inv h (by simp) (by simp)
   | abort => exact raise_inv h (by simp) (by simp)
   | challenge => exact raise_inv h (by simp) (by simp)
   | other => exact raise_inv h (by simp) (by simp)
 
-theorem step_inv {s : Sess} (e : SEv) (h : Inv s) : InvRel s (step s e).2 (step s e).1 := by
-  cases e with
-  | api a => exact apiStep_inv a h
-  | msg m beh =>
-    simp only [step, onMessage]
-    split
-    · split
-      · exact ⟨IdRel.of_same h.1 rfl rfl h.1.2 rfl, h.2.congr (fun k => by cases k <;> rfl) rfl rfl rfl h.2.cbq, Clean.nil, Nat.le_refl _⟩
-      · exact out_inv h rfl (Clean.of_all (by simp [cleanB]))
-      · exact out_inv h rfl (Clean.of_all (by simp [cleanB]))
-      · exact raise_inv h (by simp) (by simp)
-    · exact onEstablished_inv h beh m
-  | pump =>
-    refine ⟨step_idrel .pump h.1, ?_⟩
-    simp only [step]
-    refine ⟨h.2.congr (fun k => by cases k <;> rfl) rfl rfl rfl (by simp [CbqOk]), ?_, Nat.le_refl _⟩
-    intro x hx
-    have := (h.2.cbq x hx).1
-    refine ⟨?_, ?_, ?_, ?_⟩ <;> intro e <;> subst e <;> simp [cleanB] at this
-  | open_ =>
-    simp only [step]
-    have h0 : Inv { s with transport := true, goodbyeSent := false } :=
-      ⟨h.1.congr rfl rfl rfl, h.2.congr (fun k => by cases k <;> rfl) rfl rfl rfl h.2.cbq⟩
-    exact InvRel.congr_left rfl rfl (emitCb_inv h0 rfl (by simp [cleanB, isInvoke]))
-  | closed =>
-    simp only [step]
-    split
-    · have h0 : Inv { s with transport := false, sessionId := none } :=
-        ⟨h.1.congr rfl rfl rfl, h.2.congr (fun k => by cases k <;> rfl) rfl rfl rfl h.2.cbq⟩
-      exact InvRel.congr_left rfl rfl (onLeaveDefault_inv h0 1)
-    · have h0 : Inv { s with transport := false } :=
-        ⟨h.1.congr rfl rfl rfl, h.2.congr (fun k => by cases k <;> rfl) rfl rfl rfl h.2.cbq⟩
-      exact InvRel.congr_left rfl rfl (rejectList_inv (clearTables_inv h0) _ _ (outstanding_bound h0))
+theorem step_inv {s : Sess} (e : SEv) (h : Inv s) : InvRel s (step s e).2 (step s e).1 :=
+  invLiftX.step (fun beh m h => onEstablished_inv h beh m) h e
 
 
 theorem init_inv (mode : Sched) : Inv (init mode) := by
